@@ -217,6 +217,8 @@ package ast
 //@   site (*Tasks).Set#0 requires include.Flatten || (task.Task == taskName && task.Namespace == include.Namespace)     [C08]
 //@   site (*Tasks).Set#0 requires include.AdvancedImport ==> varsDone      -- the include's vars reach every copy       [C08,C10]
 //@   site (*Vars).DeepCopy#1 ghost itvDone := true
+// ... each of them stamped with the directory of the include (on the task's copy): their sh: commands run there
+//@   site store:Var.Dir#0 requires arg1 == include.Dir                                                                  [C08,C10]
 //@   site (*Tasks).Set#0 requires include.AdvancedImport ==> itvDone       -- and so do the included file's own vars, flattened or not   [C10]
 
 // The alias block after the loop only touches the default task if it was merged (it may have been excluded).
@@ -241,14 +243,12 @@ package ast
 // Every variable taken over from an advanced import is stamped with the directory of THAT include statement
 // (whatever was recorded on it before), so that which parent was merged first can make no difference.
 //@ func (*Vars).Merge
-//@   modifies github.com/go-task/task/v3/taskfile/ast.Var.Dir, om_has, om_val, om_len, om_key
+//@   modifies om_has, om_val, om_len, om_key
 //@   nilable vars other include
 //@   site (*OrderedMap).Set#0 requires arg0 == vars.om                                                       [C08,C10]
 //@   site (*OrderedMap).Set#0 requires include != nil && include.AdvancedImport ==> arg2.Dir == include.Dir  [C08,C09,C10]
-// the stamp is put on the variable of the INCLUDED Taskfile itself, not only on the copy that goes to the parent:
-// Taskfile.Merge hands these same variables to Tasks.Merge right afterwards, as "the included file's own vars" of
-// every task (their sh: commands run in the include's directory)
-//@   site (*OrderedMap).Set#0 requires include != nil && include.AdvancedImport ==> pair.Value.Dir == include.Dir   [C08,C10]
+// the stamp is put on the COPY that goes to the parent, never on the variable of the included Taskfile itself: that
+// Taskfile may be merged into other parents (or again into this one) with another directory, or with none
 // ... and is otherwise taken over as it is: value, shell command, reference and the "live" (final, never
 // templated) value - the marker CLI_ARGS travels with
 //@   site (*OrderedMap).Set#0 requires arg1 == pair.Key && arg2.Value == pair.Value.Value && arg2.Live == pair.Value.Live && arg2.Sh == pair.Value.Sh && arg2.Ref == pair.Value.Ref   [C10,C19]
